@@ -598,6 +598,21 @@ func attribute(t *term, prefix string, whole *verdict) (out []engine.Failure) {
 					continue
 				}
 			}
+			if strings.HasPrefix(k.kind, "$") {
+				// an environment leaf in a hole that fails with just any filling: same signature as for a template there
+				for _, canon := range []string{"lst", "add", "pg1"} {
+					if cv := pairVerdict(n.kind, i, canon); cv.skip == "" && cv.text != "" {
+						if !cv.ok && singleVerdict(canon).ok {
+							add(pairSig(tp, i, "*", cv.kind), cv.describe()+from)
+							cut[k] = true
+						}
+						break
+					}
+				}
+				if cut[k] {
+					continue
+				}
+			}
 			walk(k)
 		}
 	}
